@@ -80,9 +80,29 @@ class Ctx:
                 return False
         return _Only()
 
+    def soft(self, why):
+        """Context manager: inside it, an obligation that comes out UNDECIDED is kept as a note instead of an obligation (failures and
+        discharged obligations are recorded as usual).  Used where a property runs the rules of a neighbouring part of the package as
+        an additional necessary condition: a shape of that neighbouring code the rules do not read must not make this property's
+        check undecided -- its own check decides it."""
+        ctx = self
+
+        class _Soft:
+            def __enter__(self_):
+                self_.prev = getattr(ctx, "_soft", None)
+                ctx._soft = why
+
+            def __exit__(self_, *a):
+                ctx._soft = self_.prev
+                return False
+        return _Soft()
+
     def ob(self, rule, func, node, construct, goal, status, detail="", proof="", facts=()):
         """func: model.Func | (file, name) ; node: ast node or line."""
         if getattr(self, "_only", None) is not None and rule not in self._only:
+            return None
+        if status is None and getattr(self, "_soft", None):
+            self.note("%s (not decided here, %s): %s -- %s" % (rule, self._soft, construct, detail))
             return None
         if hasattr(func, "key"):
             file, fname = func.file, func.qualname
